@@ -47,3 +47,7 @@ R('http_decode', 'h_http_decode', None, unwind=16, defines=['VSTR_CAP=14'], cost
   bounded='request text up to 14 characters (string model capacity)')
 R('split_tcp', 'h_split_tcp', None, unwind=12, defines=['VSTR_CAP=9'], cost=60, timeout=1500,
   bounded='command lines up to 9 characters (string model capacity), full character set')
+R('http_line', 'h_http_line', None, unwind=16, defines=['VSTR_CAP=14'], cost=60, timeout=1500,
+  bounded='request line up to 3 characters plus the HTTP suffix, two chunks (string model capacity 14)')
+R('tcp_line', 'h_tcp_line', None, unwind=16, defines=['VSTR_CAP=8'], cost=30, timeout=1500,
+  bounded='command lines up to 4 characters (string model capacity 8)')
